@@ -122,6 +122,7 @@ class MapOf(Shape):
 
 
 EXT_ENUMS: dict[str, list] = {}
+EXT_ENUM_KEYS: dict[str, list] = {}   # library enum members only used as (concrete) dict keys
 
 
 class Enum(Shape):
@@ -151,6 +152,25 @@ class ExtObj(Shape):
             self.methods.setdefault(k, {})["returns"] = v
         self.stream = stream
         self.fields = fields
+
+
+class EnumKey:
+    """A library/repository enum member used as a dict key in a DictOpt shape."""
+
+    def __init__(self, cls, member):
+        self.cls = cls
+        self.member = member
+        if cls.startswith("ext:") and member not in EXT_ENUM_KEYS.setdefault(cls, []):
+            EXT_ENUM_KEYS[cls].append(member)
+
+    def __hash__(self):
+        return hash((self.cls, self.member))
+
+    def __eq__(self, o):
+        return isinstance(o, EnumKey) and (o.cls, o.member) == (self.cls, self.member)
+
+    def __repr__(self):
+        return f"{self.cls.split('.')[-1]}.{self.member}"
 
 
 class Const(Shape):
@@ -278,3 +298,16 @@ def same_record(a, b):
     """Field-by-field equality of two dataclass records (ignores a custom __eq__)."""
     import dataclasses
     return all(getattr(a, f.name) == getattr(b, f.name) for f in dataclasses.fields(a))
+
+
+def close(a, b):
+    """Equal up to floating-point rounding (the verifier, which computes with reals, reads it as ==)."""
+    import math
+    if a is None or b is None:
+        return a is b
+    return math.isclose(a, b, rel_tol=1e-9, abs_tol=1e-9)
+
+
+def elements(s):
+    """The elements of a set in (some) iteration order."""
+    return list(s)
